@@ -45,6 +45,11 @@ def run(ck, ctx):
     ck.nd("that the resulting stamp supersedes on every replica additionally needs C07 (merge algebra)")
     ck.nd("per-field stamps inside hash values larger than the outer stamp (value-level)")
     ck.rule("R08.11", COVER_TEXT)
+    ck.rule("R08.12", TICK_TEXT)
+    ck.rule("R08.13", "compaction keeps a key's greatest stamp: in the per-key fold an entry is replaced only behind `key absent` or `incoming stamp > "
+                      "stored stamp` (segment ids do not order ages: a compaction's output gets the newest id and carries the oldest data) - the shard "
+                      "clocks are rebuilt from what the segments hold, so losing the newest delta of a key lets the node re-issue its stamp after a "
+                      "restart (shared with C13 R13.1; the open merge-operator finding stays with C13)")
     ck.rule("R08.10", "the clocks are rebuilt from everything that was persisted: the recovered checkpoint and every recovered delta reach the shard "
                       "actors as the recovery manager returned them (no picking, collapsing or reordering on the way), through the merging ingest "
                       "that advances the clock past each of them - a delta dropped here can be the one that carries a shard's newest stamp "
@@ -71,6 +76,10 @@ def run(ck, ctx):
         from .core import Alias as _Alias
         _c11._r113(_Alias(ck, "R11.3", "R08.10"), prog, cfg)
         r0811(ck, prog, cfg, "R08.11")
+        r0812(ck, prog, cfg, "R08.12")
+        from . import c13 as _c13
+        from .core import Only as _Only
+        _c13._rules(_Only(ck, {"R13.1": "R08.13"}, skip_keys=("R13.1:compact:fold-operator",)), prog, cfg)
 
 
 def _is_time_place(pl):
@@ -618,4 +627,41 @@ def r0811(ck, prog, cfg, rid):
             ck.check(ok, rid, "create_checkpoint:%s%s" % (what, _tag(cfg)),
                      "create_checkpoint records a covered range (%s) that is not the `last_segment_id` its caller passed in with the snapshot (%s)"
                      % (what, s_.path()), f.where(ln), detail="the parameter itself")
+    ck.floor(rid + _tag(cfg), n, 2)
+
+
+# ------------------------------------------------------------------------------------------------
+TICK_TEXT = ("every stamped mutation takes a fresh tick: the register mutators that stamp with the node clock (LwwRegister::set / delete, anything of "
+             "LwwRegister that receives `&mut LamportClock`) call tick() on every path to their return and store its result, and a register built "
+             "inside a function that holds the node clock (`LwwRegister::with_value(v, stamp)`) is given the result of tick(), never a copy of the "
+             "clock as it stands: a mutation that re-uses the previous stamp ties with the write before it (peers keep the old value), and a "
+             "mutator that skips the tick leaves the inner stamp behind the outer one its caller copies afterwards")
+LWW = "replication::lattice::LwwRegister"
+
+
+def r0812(ck, prog, cfg, rid):
+    n = 0
+    for fn in prog.lib_fns():
+        if "::tests::" in fn.id:
+            continue
+        cl = [ai for ai in range(1, fn.d["argc"] + 1) if fn.locals[ai] == "&mut " + CLOCK]
+        if not cl:
+            continue
+        if (fn.d.get("impl_self") or "").startswith(LWW) and fn.kind == "method":
+            ticks = [b for b, t in fn.calls() if is_callee(t, r"LamportClock::tick$")]
+            n += 1
+            ok = bool(ticks) and all(any(fn.dominates(tb, e) for tb in ticks) for e in fn.exits())
+            ck.check(ok, rid, "%s:ticks-on-every-path%s" % (fn.id.replace("replication::lattice::", ""), _tag(cfg)),
+                     "%s can return without having taken a tick: the mutation keeps an old inner stamp while its caller copies the clock into the "
+                     "outer stamp (inner < outer: same-type merges decide by the one, type conflicts by the other), or re-uses a stamp" % fn.short,
+                     fn.where(), detail="tick() dominates every return")
+        # registers built with an explicit stamp while the node clock is at hand
+        for b, t in fn.calls():
+            if is_callee(t, r"LwwRegister::<.*>::with_value$|LwwRegister<.*>::with_value$") and len(t["args"]) >= 2:
+                n += 1
+                s_ = src_of_operand(fn, t["args"][1])
+                good = s_.kind == "call" and is_callee(s_.term, r"LamportClock::tick$")
+                ck.check(good, rid, "%s:with_value-stamp#%d%s" % (fn.id.replace("replication::", ""), n, _tag(cfg)),
+                         "a register is built with the stamp %s inside a function that holds the node clock: a copy of the clock is the stamp of the "
+                         "previous write, so this write ties with it" % s_.path(), fn.where(t["ln"]), detail="stamp = clock.tick()")
     ck.floor(rid + _tag(cfg), n, 2)
